@@ -9,7 +9,8 @@ namespace CogentModel.C17H
 open CogentModel.AnnotDb CogentModel.AnnotDbSpec CogentModel.C17
 
 /-- **Content after any history.**  Start from an empty register and run any list of calls (new db, add_feature,
-loaded rows, update with or without `seqids`, union, subset with any query, copies) that does not raise: the
+loaded rows, update with or without `seqids`, union, subset with any query, deepcopy / pickle / write+reload copies,
+to_json round trips) that does not raise: the
 register holds as many dbs as the record-list spec predicts, and every db is well formed and holds exactly the
 multiset of records the spec predicts for it (update from the same connection being the no-op it is). -/
 theorem history_content (ops : List Op) (dbs : List Db) (hok : ∀ op ∈ ops, op.ok)
@@ -48,7 +49,7 @@ example :
     let r1 := mkUserRec "s1" "gene" "a" (some "-") none [(2, 5)]
     let r2 := mkUserRec "s2" "cds" "b" none (some "zq") [(12, 15)]
     let ops : List Op := [.new .gff, .addTable 0 "gff" r2, .new .basic, .add 1 r1, .add 1 r2, .update 0 1 (some (.one "s1")),
-      .update 0 0 none, .union 1 0, .subset 2 { start := some 4, stop := some 13, allowPartial := true }, .copy 3]
+      .update 0 0 none, .union 1 0, .subset 2 { start := some 4, stop := some 13, allowPartial := true }, .copyJson 3]
     (∀ op ∈ ops, op.ok) ∧
     (match runHistory [] ops with | .ok dbs => dbs.map (·.records) | .error _ => []) =
       [[r2, r1], [r1, r2], [r2, r1, r2, r1], [r2, r1, r2, r1], [r2, r1, r2, r1]] ∧
